@@ -59,8 +59,6 @@ func shortFn(fn string) string {
 			fn = fn[:i] + fn[j:]
 		}
 	}
-	// the db package is compiled from the cmd module's sources under a virtual path
-	fn = strings.Replace(fn, "metadata/verifdb.", "cmd/containerd-stargz-grpc/db.", 1)
 	return fn
 }
 
@@ -219,7 +217,30 @@ var reClosure = regexp.MustCompile(`(\.func[0-9]+|\.[0-9]+|\.gowrap[0-9]+)+$`)
 func baseFn(fn string) string { return reClosure.ReplaceAllString(fn, "") }
 
 // hangSite: the innermost repository function present in a non-idle goroutine of every dump.
+func busyState(hdr string) bool {
+	for _, s := range []string{"[running", "[runnable", "[GC assist", "[preempted", "[copystack", "[syscall"} {
+		if strings.Contains(hdr, s) {
+			return true
+		}
+	}
+	return false
+}
+
 func hangSite(dumps []string, blocked bool) (site string, top string, allocating bool) {
+	growing := false
+	defer func() {
+		if growing {
+			allocating = false
+		}
+	}()
+	if !blocked {
+		// no busy goroutine with repository frames in any dump (e.g. all parked in the allocator): look at all of them
+		defer func() {
+			if site == "unknown" {
+				site, top, allocating = hangSite(dumps, true)
+			}
+		}()
+	}
 	type dumpInfo struct {
 		order []string       // repo base functions of busy goroutines, innermost first
 		count map[string]int // frames per function
@@ -238,7 +259,7 @@ func hangSite(dumps []string, blocked bool) (site string, top string, allocating
 				continue
 			}
 			h := hdr[:nl]
-			if !blocked && !strings.Contains(h, "[running") && !strings.Contains(h, "[runnable") {
+			if !blocked && !busyState(h) {
 				continue
 			}
 			frames := parseFrames(hdr)
@@ -257,8 +278,11 @@ func hangSite(dumps []string, blocked bool) (site string, top string, allocating
 					if len(t) < 10 {
 						t = append(t, shortFn(f.fn)+"  "+strings.TrimPrefix(f.file, "/repo/"))
 					}
-					if k < 6 && (strings.HasPrefix(f.fn, "runtime.mallocgcLarge") || strings.HasPrefix(f.fn, "runtime.memclrNoHeapPointersChunked")) {
-						allocating = true // one very large allocation being cleared
+					if k < 8 && (strings.HasPrefix(f.fn, "runtime.mallocgcLarge") || strings.HasPrefix(f.fn, "runtime.memclrNoHeapPointersChunked")) {
+						allocating = true // one very large allocation being cleared ...
+					}
+					if k < 10 && strings.HasPrefix(f.fn, "runtime.growslice") {
+						growing = true // ... unless it is a slice that a loop keeps appending to
 					}
 				}
 				top = strings.Join(t, "\n")
